@@ -243,7 +243,7 @@ def run_C19(ctx, K):
     #    re-entrant calls, stress loop (child process)
     b = K.go_build(ctx, "statusrace")
     if b:
-        K.run_tool(ctx, b, ["-seed", str(ctx.seed), "-rounds", str(tier_n(ctx, 300, 5000))], "status-race", timeout=1500)
+        K.run_tool(ctx, b, ["-seed", str(ctx.seed), "-rounds", str(tier_n(ctx, 300, 30000))], "status-race", timeout=1500)
 
 
 # ------------------------------------------------------------------ C20
@@ -253,7 +253,7 @@ def run_C20(ctx, K):
     if not b:
         return
     cases = os.path.join(ctx.rundir, "cases_C20.v")
-    rep = K.run_tool(ctx, b, ["-seed", str(ctx.seed), "-extra", str(tier_n(ctx, 6, 60)), "-reps", str(tier_n(ctx, 1, 3)),
+    rep = K.run_tool(ctx, b, ["-seed", str(ctx.seed), "-extra", str(tier_n(ctx, 6, 200)), "-reps", str(tier_n(ctx, 1, 5)),
                               "-coq", cases, "-coqmax", "400"], "batch-gate", timeout=1500)
     if rep:
         ctx.coq_cases += rep.get("coq_cases", 0)
@@ -328,8 +328,8 @@ def run_C14(ctx, K):
     if not b:
         return
     cases = os.path.join(ctx.rundir, "cases_C14.v")
-    rep = K.run_tool(ctx, b, ["-n", str(tier_n(ctx, 300, 3000)), "-len", str(tier_n(ctx, 30, 40)), "-reduce", "70",
-                              "-rounds", str(tier_n(ctx, 4, 8)), "-coq", cases, "-coqmax", str(tier_n(ctx, 400, 2000)),
+    rep = K.run_tool(ctx, b, ["-n", str(tier_n(ctx, 300, 20000)), "-len", str(tier_n(ctx, 30, 40)), "-reduce", "70",
+                              "-rounds", str(tier_n(ctx, 4, 8)), "-coq", cases, "-coqmax", str(tier_n(ctx, 400, 12000)),
                               "-seed", str(ctx.seed)], "fold")
     if rep:
         ctx.coq_cases += rep.get("coq_cases", 0)
@@ -341,8 +341,8 @@ def run_C15(ctx, K):
     if not b:
         return
     cases = os.path.join(ctx.rundir, "cases_C15.v")
-    rep = K.run_tool(ctx, b, ["-n", str(tier_n(ctx, 400, 4000)), "-len", str(tier_n(ctx, 30, 40)), "-coq", cases,
-                              "-coqmax", str(tier_n(ctx, 300, 1500)), "-seed", str(ctx.seed)], "clock")
+    rep = K.run_tool(ctx, b, ["-n", str(tier_n(ctx, 400, 20000)), "-len", str(tier_n(ctx, 30, 40)), "-coq", cases,
+                              "-coqmax", str(tier_n(ctx, 300, 10000)), "-seed", str(ctx.seed)], "clock")
     if rep:
         ctx.coq_cases += rep.get("coq_cases", 0)
         K.run_cases(ctx, cases, "Clock.v~clock.go,step_function.go,graph.go(SetStale/observe/unobserve/recompute)")
@@ -353,8 +353,8 @@ def run_C17(ctx, K):
     if not b:
         return
     cases = os.path.join(ctx.rundir, "cases_C17.v")
-    rep = K.run_tool(ctx, b, ["-n", str(tier_n(ctx, 20, 400)), "-len", str(tier_n(ctx, 8, 10)), "-coq", cases,
-                              "-coqmax", str(tier_n(ctx, 300, 3000)), "-seed", str(ctx.seed)], "mapi-random")
+    rep = K.run_tool(ctx, b, ["-n", str(tier_n(ctx, 20, 1500)), "-len", str(tier_n(ctx, 8, 10)), "-coq", cases,
+                              "-coqmax", str(tier_n(ctx, 300, 12000)), "-seed", str(ctx.seed)], "mapi-random")
     if rep:
         ctx.coq_cases += rep.get("coq_cases", 0)
         K.run_cases(ctx, cases, "Mapi.v~incrutil/mapi (random edit histories, all operators)")
